@@ -61,6 +61,10 @@ THEOREMS = [
     "SleapVerif.C04.augment_translation_offset",
     "SleapVerif.C04.chain_offset_exact",
     "SleapVerif.C04.chain_registered_iff_lt_three",
+    "SleapVerif.C04.getItem_cache_unchanged",
+    "SleapVerif.C04.read_history_independent",
+    "SleapVerif.C04.chain_split",
+    "SleapVerif.C04.reread_registered",
 ]
 
 TOL_CONTENT = 0.15   # px: measured blob centroid vs model content map (observed ≤ 0.03 on the pinned tree)
@@ -114,11 +118,11 @@ def measure(img2d, guess, r):
     return cx, cy
 
 
-def gen_points(rng, h, w, n, sigma, margin_sig=3.5):
-    """n points on the 1/16 lattice, ≥ 7σ apart and ≥ margin_sig·σ from the border (fewer when
-    they do not fit)."""
+def gen_points(rng, h, w, n, sigma, margin_sig=3.5, first=None):
+    """n points on the 1/16 lattice, ≥ 8σ apart and ≥ margin_sig·σ from the border (fewer when
+    they do not fit); `first` seeds the list with a given point."""
     m = margin_sig * sigma
-    pts = []
+    pts = [first] if first is not None else []
     if w - 1 - 2 * m <= 1 or h - 1 - 2 * m <= 1:
         return pts
     for _ in range(200):
@@ -126,7 +130,7 @@ def gen_points(rng, h, w, n, sigma, margin_sig=3.5):
             break
         x = rng.randrange(int(16 * m), int(16 * (w - 1 - m)) + 1) / 16
         y = rng.randrange(int(16 * m), int(16 * (h - 1 - m)) + 1) / 16
-        if all(max(abs(x - a), abs(y - b)) >= 7 * sigma for a, b in pts):
+        if all(max(abs(x - a), abs(y - b)) >= 8 * sigma for a, b in pts):
             pts.append((x, y))
     return pts
 
@@ -346,7 +350,8 @@ def judge_pad(chk, c, obs, outs):
 
 
 # ---- shared: measuring a set of points on an output image -------------------
-def compare_points(chk, c, what, img2d, model_pts, impl_kps, sigma_out, sigs_fn, hist, skip_measure=False, area=None, src=None):
+def compare_points(chk, c, what, img2d, model_pts, impl_kps, sigma_out, sigs_fn, hist, skip_measure=False, area=None, src=None,
+                   neighbours=()):
     """model_pts: [{'content','kp'}], impl_kps: [(x,y)|None]; `area` = (h, w) of the part of the
     output that carries content (the rest is stride padding). Returns True when all agree."""
     ok = True
@@ -373,7 +378,7 @@ def compare_points(chk, c, what, img2d, model_pts, impl_kps, sigma_out, sigs_fn,
             continue
         # the measurement window must hold ONE blob: bound it by half the distance to the nearest other
         # transformed keypoint (model content and returned keypoints both), discard-and-count otherwise
-        others = [q["content"] for j, q in enumerate(model_pts) if j != i] + \
+        others = list(neighbours) + [q["content"] for j, q in enumerate(model_pts) if j != i] + \
                  [q for j, q in enumerate(impl_kps) if j != i and q is not None and q[0] is not None]
         dmin = min([math.hypot(cx - q[0], cy - q[1]) for q in others] +
                    [math.hypot(ik[0] - q[0], ik[1] - q[1]) for q in others] + [1e9])
@@ -681,6 +686,18 @@ def judge_aug(chk, c, obs, outs):
         chk.fail("C04 intensity-only / non-affine augmentation moved keypoints", c, obs["kps"])
         ok = False
     kps = [tuple(p) for p in obs["kps"]]
+    # oracle (model-free): a geometric augmentation moves ALL keypoints by one affine map — with ≥ 4
+    # points the least-squares affine fit input → output must leave no residual
+    fin = [(p, q) for p, q in zip(c["pts"], kps) if q[0] is not None]
+    if c["mode"] == "geo" and len(fin) >= 4:
+        X = np.array([[p[0], p[1], 1.0] for p, _ in fin])
+        Y = np.array([[q[0], q[1]] for _, q in fin])
+        sol = np.linalg.lstsq(X, Y, rcond=None)[0]
+        res = float(np.abs(X @ sol - Y).max())
+        if res >= 0.5:
+            chk.fail(f"C04 geometric augmentation: returned keypoints are not one affine image of the input keypoints "
+                     f"(least-squares residual {res:.2f} px)", c, {"in": [list(p) for p, _ in fin], "out": [list(q) for _, q in fin]})
+            ok = False
     sc = math.sqrt(obs["det"])
     noisy = c["mode"] == "int"
     ok &= compare_points(chk, c, "apply_%s_augmentation" % ("intensity" if noisy else "geometric"), obs["_img"],
@@ -697,11 +714,22 @@ def ds_config(c):
         augc["intensity"] = c["intensity"]
     if c.get("geometric"):
         augc["geometric"] = c["geometric"]
-    dc = OmegaConf.create({"user_instances_only": True, "preprocessing": {"is_rgb": c["rgb"]},
+    pre = {"is_rgb": c["rgb"]}
+    cfg = c.get("cfg_max_hw") or [None, None]
+    if c.get("cfg_max_hw") is not None:     # keys present (possibly None) — what a config file gives
+        pre["max_height"], pre["max_width"] = cfg[0], cfg[1]
+    dc = OmegaConf.create({"user_instances_only": True, "preprocessing": pre,
                            "augmentation_config": augc if augc else None})
     hc = OmegaConf.create({"sigma": 1.5, "output_stride": 2, "anchor_part": c.get("anchor")})
     pc = OmegaConf.create({"sigma": 4, "output_stride": 4})
     return dc, hc, pc
+
+
+def eff_hw(c):
+    """max_hw the dataset must use: config max_height/max_width, when set, override the argument
+    per component (repo commit 3fdd300)."""
+    cfg = c.get("cfg_max_hw") or [None, None]
+    return [cfg[0] if cfg[0] is not None else c["max_hw"][0], cfg[1] if cfg[1] is not None else c["max_hw"][1]]
 
 
 def bbox_mid(inst):
@@ -711,13 +739,31 @@ def bbox_mid(inst):
 
 
 def exec_ds(c):
+    """Builds the dataset once and reads the index HISTORY c["reads"] (repeats, interleaving): one
+    driver line and one observation per read."""
+    import shutil
+    import tempfile
     from sleap_nn.data import custom_datasets as cd
     labels = build_labels(c["frames"])
     dc, hc, pc = ds_config(c)
     sn, sd = c["scale"]
     kw = dict(max_stride=c["stride"], scale=sn / sd, apply_aug=bool(c.get("intensity") or c.get("geometric")),
               max_hw=(c["max_hw"][0], c["max_hw"][1]))
+    tmp = None
+    if c.get("np_chunks"):
+        tmp = tempfile.mkdtemp(prefix="c04np_")
+        kw.update(np_chunks=True, np_chunks_path=tmp)
+    try:
+        return _exec_ds(c, cd, labels, dc, hc, pc, kw)
+    finally:
+        if tmp:
+            shutil.rmtree(tmp, ignore_errors=True)
+
+
+def _exec_ds(c, cd, labels, dc, hc, pc, kw):
     cls = c["cls"]
+    sn, sd = c["scale"]
+    mhw = eff_hw(c)
     r = call(lambda: {"BottomUp": lambda: cd.BottomUpDataset(labels, dc, hc, pc, **kw),
                       "Single": lambda: cd.SingleInstanceDataset(labels, dc, hc, **kw),
                       "Centroid": lambda: cd.CentroidDataset(labels, dc, hc, **kw),
@@ -733,24 +779,32 @@ def exec_ds(c):
         index = [(fi, None) for fi in range(len(c["frames"]))]
     if len(ds) != len(index):
         return [], {"raise": ("len", f"{len(ds)} samples, expected {len(index)}")}
-    for idx, (fi, ii) in enumerate(index):
+    img_key = "instance_image" if cls == "Centered" else "image"
+    kp_key = {"Centered": "instance", "Centroid": "centroids"}.get(cls, "instances")
+    first = {}   # idx → (image, keypoints) of its first read
+    for k, idx in enumerate(c["reads"]):
+        fi, ii = index[idx]
         fr = c["frames"][fi]
         Rec.log.clear()
-        torch.manual_seed(c["seed"] + idx)
+        torch.manual_seed(c["seed"] + k)
         g = call(ds.__getitem__, idx)
         if g[0] != "ok":
-            items.append({"raise": g[1:]})
+            items.append({"raise": g[1:], "read": k, "idx": idx})
             lines.append("oc 1")
             continue
         s = g[1]
-        img_key = "instance_image" if cls == "Centered" else "image"
         img = s[img_key]
-        pre = ds.cache[idx][img_key]
+        if c.get("np_chunks"):
+            z = np.load(ds.cache[idx])
+            pre_shape = list(z[img_key].shape[:2])
+        else:
+            pre_shape = list(ds.cache[idx][img_key].shape[-2:])
         mats = [m for names, m in Rec.log if m is not None and "RandomAffine" in names]
         ops = []
-        if c["max_hw"][0] is not None or c["max_hw"][1] is not None:
-            ops.append(("sm", c["max_hw"][0] or 0, c["max_hw"][1] or 0))
+        if mhw[0] is not None or mhw[1] is not None:
+            ops.append(("sm", mhw[0] or 0, mhw[1] or 0))
         ops.append(("rs", sn, sd))
+        all_pts = [p for inst in fr["insts"] for p in inst if p[0] is not None and p[1] is not None]
         if cls == "Centered":
             inst = fr["insts"][ii]
             a = c.get("anchor")
@@ -780,16 +834,25 @@ def exec_ds(c):
             ops.append(("recrop", c["crop_hw"][0], c["crop_hw"][1]))
             ops.append(("pad", c["stride"]))
         vis = [p for p in pts if p[0] is not None and p[1] is not None]
-        lines.append(chain_line(fr["h"], fr["w"], ops, vis))
-        kps = t2l(kp_t)
-        g2 = img[0].mean(0).numpy()
-        items.append({"shape": list(img.shape[-2:]), "channels": int(img.shape[-3]), "pre_shape": list(pre.shape[-2:]),
-                      "kps": kps, "missing": [p[0] is None or p[1] is None for p in pts], "n_pre": n_pre,
+        nb = [p for p in all_pts if p not in vis]      # other blobs in the frame (measurement neighbours)
+        lines.append(chain_line(fr["h"], fr["w"], ops, vis + nb))
+        # history oracle (model-free): without augmentation a re-read returns what the first read returned
+        same = None
+        if not (c.get("intensity") or c.get("geometric")):
+            cur = (img.clone(), s[kp_key].clone())
+            if idx in first:
+                same = bool(torch.equal(cur[0], first[idx][0]) and
+                            torch.equal(torch.nan_to_num(cur[1], nan=-7.0), torch.nan_to_num(first[idx][1], nan=-7.0)))
+            else:
+                first[idx] = cur
+        items.append({"shape": list(img.shape[-2:]), "channels": int(img.shape[-3]), "pre_shape": pre_shape,
+                      "kps": t2l(kp_t), "missing": [p[0] is None or p[1] is None for p in pts], "n_pre": n_pre,
+                      "n_vis": len(vis), "same_as_first": same,
                       "centroid": t2l(s["centroid"])[0] if cls == "Centered" else None,
                       "bbox": t2l(s["instance_bbox"]) if cls == "Centered" else None,
                       "det": smax(mats[-1]) ** 2 if mats else 1.0,
                       "orig_size": [float(v) for v in s["orig_size"].flatten().tolist()],
-                      "fi": fi, "ii": ii, "_img": g2})
+                      "fi": fi, "ii": ii, "read": k, "idx": idx, "_img": img[0].mean(0).numpy()})
     return lines, {"items": items}
 
 
@@ -802,25 +865,34 @@ def judge_ds(chk, c, obs, outs):
     s = Fraction(sn, sd)
     geo = bool(c.get("geometric"))
     noisy = bool(c.get("intensity"))
+    mhw = eff_hw(c)
     for it, out in zip(obs["items"], outs):
         if "raise" in it:
-            chk.disagree(f"{c['cls']}Dataset.__getitem__ raised where the model does not", c, it["raise"], "ok")
+            chk.disagree(f"{c['cls']}Dataset.__getitem__ raised where the model does not",
+                         {**c, "reads": c["reads"][:it["read"] + 1]}, it["raise"], "ok")
             ok = False
             continue
         fr = c["frames"][it["fi"]]
-        sub = {**c, "frames": [fr], "sample": [it["fi"], it["ii"]]}
+        # the concrete read sequence up to and including this read
+        sub = {**c, "reads": c["reads"][:it["read"] + 1], "read_no": it["read"], "sample": [it["fi"], it["ii"]]}
+        tag = "first_read" if it["idx"] not in c["reads"][:it["read"]] else "re_read"
+        STATS[tag] = STATS.get(tag, 0) + 1
+        if it["same_as_first"] is False:
+            chk.fail(f"C04 {c['cls']}Dataset: read #{it['read']} of index {it['idx']} (history {sub['reads']}) differs from its first read "
+                     "although augmentation is off", sub, {"keypoints_now": it["kps"], "centroid_now": it["centroid"]})
+            ok = False
         mc = parse_chain(out)
         if mc is None:
             chk.disagree("driver rejected the chain", sub, None, out)
             ok = False
             continue
-        applied, eff, inexact_sm = sm_facts(fr["h"], fr["w"], c["max_hw"][0], c["max_hw"][1])
-        h1 = c["max_hw"][0] if (applied and c["max_hw"][0]) else fr["h"]
-        w1 = c["max_hw"][1] if (applied and c["max_hw"][1]) else fr["w"]
+        applied, eff, inexact_sm = sm_facts(fr["h"], fr["w"], mhw[0], mhw[1])
+        h1 = mhw[0] if (applied and mhw[0]) else fr["h"]
+        w1 = mhw[1] if (applied and mhw[1]) else fr["w"]
         if c.get("decimal") and ((h1 * s).denominator == 1 or (w1 * s).denominator == 1):
             chk.knife_edges += 1   # n·s integral for a decimal s: int(n * s) in doubles may land either side
             continue
-        if sm_tie(fr["h"], fr["w"], c["max_hw"][0], c["max_hw"][1]):
+        if sm_tie(fr["h"], fr["w"], mhw[0], mhw[1]):
             chk.knife_edges += 1   # round() tie in the size matcher
             continue
         # exact sizes
@@ -853,9 +925,9 @@ def judge_ds(chk, c, obs, outs):
             if mc["centroid"] is None or not (close(it["centroid"][0], mc["centroid"][0]) and close(it["centroid"][1], mc["centroid"][1])):
                 chk.disagree("CenteredInstanceDataset centroid == model", sub, it["centroid"], mc["centroid"])
                 ok = False
-        elif (c["max_hw"][0] is not None and c["max_hw"][1] is not None):
-            eh, ew = int(math.floor(c["max_hw"][0] * s)) if s != 1 else c["max_hw"][0], \
-                int(math.floor(c["max_hw"][1] * s)) if s != 1 else c["max_hw"][1]
+        elif (mhw[0] is not None and mhw[1] is not None):
+            eh, ew = int(math.floor(mhw[0] * s)) if s != 1 else mhw[0], \
+                int(math.floor(mhw[1] * s)) if s != 1 else mhw[1]
             if not (eh <= H < eh + st and ew <= W < ew + st) and not c.get("decimal"):
                 chk.fail(f"C04 {c['cls']}Dataset: output {H}x{W} is not max_hw·scale = {eh}x{ew} padded to the stride", sub, it["shape"])
                 ok = False
@@ -877,7 +949,7 @@ def judge_ds(chk, c, obs, outs):
             if g[ph:, :].any() or g[:, pw:].any():
                 chk.fail(f"C04 {c['cls']}Dataset: stride padding is not an all-zero bottom/right strip", sub, [ph, pw])
                 ok = False
-            if c["cls"] != "Centered" and not sm_facts(fr["h"], fr["w"], c["max_hw"][0], c["max_hw"][1])[0] \
+            if c["cls"] != "Centered" and not sm_facts(fr["h"], fr["w"], mhw[0], mhw[1])[0] \
                     and not (g[:ph, :pw].max(axis=1) > 0).all():
                 chk.fail(f"C04 {c['cls']}Dataset: zero rows inside the content area (padding not at the bottom/right)", sub, [ph, pw])
                 ok = False
@@ -886,10 +958,18 @@ def judge_ds(chk, c, obs, outs):
         sc = math.sqrt(it["det"])
         # no blob to measure when the content was (partly) erased or the centroid is a bbox midpoint
         no_blob = bool(geo and c["geometric"].get("erase_p", 0) > 0) or (c["cls"] == "Centroid" and c.get("anchor") is None)
-        ok &= compare_points(chk, sub, f"{c['cls']}Dataset", it["_img"], mc["pts"], vis_kps,
+        if c["cls"] == "Centered" and it["read"] == c["reads"].index(it["idx"]):
+            a_ = c.get("anchor")
+            inst_ = fr["insts"][it["ii"]]
+            c0_ = inst_[a_] if a_ is not None and inst_[a_][0] is not None else bbox_mid(inst_)
+            d_ = min(c0_[0], c0_[1], fr["w"] - 1 - c0_[0], fr["h"] - 1 - c0_[1]) * float(f_total)
+            if d_ < min(c["crop_hw"]) / 2:
+                STATS["border_hugging_centroids"] = STATS.get("border_hugging_centroids", 0) + 1
+        ok &= compare_points(chk, sub, f"{c['cls']}Dataset", it["_img"], mc["pts"][:it["n_vis"]], vis_kps,
                              fr["sigma"] * float(f_total) * sc,
                              signatures(f_total, inexact_sm, inexact_rs, post_scale=float(s), aug_scale=max(sc, 1.0)), chk.hist,
-                             skip_measure=no_blob, area=tuple(mc["sizes"][-2]) if c["cls"] == "Centered" else None)
+                             skip_measure=no_blob, area=tuple(mc["sizes"][-2]) if c["cls"] == "Centered" else None,
+                             neighbours=[q["content"] for q in mc["pts"][it["n_vis"]:]])
     return ok
 
 
@@ -1051,7 +1131,7 @@ def gen_geo_params(rng, mild=False):
 def gen_aug(rng, mode):
     h, w = rng.choice([(64, 64), (96, 96), (rng.randrange(64, 160), rng.randrange(64, 160)), (80, 200), (128, 128)])
     sigma = 2.2 if mode == "geo" else 1.8
-    pts = gen_points(rng, h, w, rng.randrange(1, 4), sigma, margin_sig=4)
+    pts = gen_points(rng, h, w, rng.randrange(1, 4) if mode == "int" else rng.choice([1, 2, 3, 4, 5, 6]), sigma, margin_sig=4)
     if not pts:
         return None
     params = dict(rng.choice(INT_PARAMS)) if mode == "int" else gen_geo_params(rng)
@@ -1112,7 +1192,15 @@ def gen_ds(rng, cls, region="main"):
                 bad = True
             sigma = pick_sigma(f_total)
             n_inst = rng.choice([1, 1, 2, 3])
-            pts = gen_points(rng, h, w, 2 * n_inst, sigma, margin_sig=rng.choice([3.5, 5]))
+            first = None
+            if cls == "Centered" and rng.random() < 0.5:
+                # border-hugging anchor: 3σ … 3σ+3 px from one border (or two: a corner)
+                d = lambda: int(16 * (3 * sigma + rng.random() * 3)) / 16
+                fx = rng.choice([d(), w - 1 - d(), rng.randrange(int(16 * 3.5 * sigma), int(16 * (w - 1 - 3.5 * sigma))) / 16])
+                fy = rng.choice([d(), h - 1 - d()]) if rng.random() < 0.6 else \
+                    rng.randrange(int(16 * 3.5 * sigma), int(16 * (h - 1 - 3.5 * sigma))) / 16
+                first = (fx, fy)
+            pts = gen_points(rng, h, w, 2 * n_inst, sigma, margin_sig=rng.choice([3.5, 5]), first=first)
             if len(pts) < 2:
                 bad = True
                 break
@@ -1135,6 +1223,27 @@ def gen_ds(rng, cls, region="main"):
         if cls == "Centered":
             ch = rng.choice([16, 24, 32, 48, 40])
             c["crop_hw"] = [ch, rng.choice([ch, ch, 32])]
+        # config max_height / max_width override the max_hw argument per component
+        if rng.random() < 0.3 and (max_hw[0] is not None or max_hw[1] is not None):
+            cfg, arg = [None, None], list(max_hw)
+            for j in (0, 1):
+                if max_hw[j] is not None and rng.random() < 0.7:
+                    cfg[j] = max_hw[j]
+                    arg[j] = rng.choice([None, max_hw[j] + 16, max(s_[j] for s_ in sizes)])   # decoy: must be ignored
+            c["cfg_max_hw"], c["max_hw"] = cfg, arg
+        elif rng.random() < 0.1:
+            c["cfg_max_hw"] = [None, None]
+        c["np_chunks"] = rng.random() < 0.25
+        # read history: every index at least once, repeats (immediate and interleaved)
+        n = sum(len(fr["insts"]) for fr in frames) if cls == "Centered" else len(frames)
+        reads = list(range(n))
+        rng.shuffle(reads)
+        reads = reads[:rng.randrange(1, n + 1)]
+        for _ in range(rng.choice([1, 2, 2, 3])):
+            reads.insert(rng.randrange(1, len(reads) + 1), rng.choice(reads))
+        if rng.random() < 0.5:
+            reads.append(reads[0])
+        c["reads"] = reads
         r = rng.random()
         if r < 0.25:
             c["intensity"] = dict(rng.choice(INT_PARAMS))
@@ -1194,6 +1303,8 @@ def tag_of(c):
             t += ":geo"
         if c.get("intensity"):
             t += ":int"
+        if c.get("np_chunks"):
+            t += ":npz"
         return t
     if c["kind"] == "aug":
         return "aug:" + c["mode"]
@@ -1216,7 +1327,14 @@ def main(chk: Check):
     chk.extra["translator"] = msg
     if not ok:
         chk.broken.append(msg + " (hand model + correspondence remain)")
-    chk.build_and_audit()
+    try:
+        chk.build_and_audit()
+    finally:
+        # a run against another tree (SLEAP_NN_REPO) must not leave its translation in /verif: the
+        # built .olean keeps the other tree's definition for this run's driver; the source goes back
+        if REPO.resolve() != Path("/repo").resolve() and Path("/repo").is_dir():
+            py2lean_c04.regenerate(Path("/repo"), LEAN)
+            chk.extra["translator"] += "; source restored from /repo after the build"
     import_repo()
     import torch as _t
     torch = _t
@@ -1309,8 +1427,10 @@ def replay(chk: Check, payload):
     torch = _t
     Rec.install()
     case = payload.get("case") or payload["disagreements"][0]["case"]
-    case = normalise({k: v for k, v in case.items() if k not in ("point", "sample")})
+    case = normalise({k: v for k, v in case.items() if k not in ("point", "sample", "read_no")})
     print("replay", {k: v for k, v in case.items() if k != "frames"})
+    if case.get("kind") == "ds":
+        print("  read sequence (dataset indices, in order):", case.get("reads"))
     run_cases(chk, [case])
     for f in chk.failing:
         print("  oracle:", f["what"], f["observed"], f["signatures"])
